@@ -11,7 +11,7 @@ PID = 'C24'
 SCHEDULE_DEPENDENT = False
 RULE = ('well-formed seeded charts with exactly one injected malformation - an initial transition that targets an '
         'ancestor, a sibling, an unrelated state or the state itself, or one handler that returns no status for one '
-        'user signal - reached (i) by start_at and (ii) by a later event that leads into the faulty state, on plain, '
+        'user signal, or one handler without its else clause (no status and no enclosing state for anything it has no branch for; led into directly, as an ancestor of the target, or by its parent\'s initial transition) - reached (i) by start_at and (ii) by a later event that leads into the faulty state, on plain, '
         'instrumented, queued and active-object hosts; the reference model predicts which call reaches the '
         'malformation. Oracle: that call raises HsmTopologyException (in an active object: its thread ends with it) '
         'within the step budget of the run (30000 pre-emption points; a correct exit takes < 2000) - exhausting the '
@@ -25,7 +25,7 @@ PLAN = {
   'quick': {'strata': {'malformed': 4000}, 'wall_s': 300, 'chunk': 100, 'min_conclusive': 500},
   'thorough': {'strata': {'malformed': 100000}, 'wall_s': 900, 'chunk': 250, 'min_conclusive': 5000},
 }
-KINDS = ['init-ancestor', 'init-sibling', 'init-unrelated', 'init-self', 'none-status']
+KINDS = ['init-ancestor', 'init-sibling', 'init-unrelated', 'init-self', 'none-status', 'no-else']
 COMBOS = [('plain', 'closure'), ('plain', 'closure-spied'), ('instrumented', 'closure'), ('instrumented', 'closure-spied'),
           ('queued', 'closure'), ('queued', 'closure-spied'), ('ao', 'closure-spied'), ('ao', 'closure')]
 BUDGET = 30000
@@ -57,16 +57,33 @@ def generate(seed, stratum, tier):
       target = rng.choice(un)
     elif kind == 'init-self':
       target = F
+    via, T = None, F
+    if kind == 'no-else':
+      # F gives no status for anything it has no branch for (so also when asked for its enclosing state); it is led into
+      # directly, as an ancestor of the target, or through the initial transition of its parent
+      below = [n for n in sp.order if n != F and sp.is_ancestor(F, n)]
+      via = rng.choice(['direct'] + (['below'] if below else []) + (['init'] if sp.parent[F] is not None else []))
+      if via == 'below':
+        T = rng.choice(below)
+      elif via == 'init':
+        P = sp.states[sp.parent[F]]
+        P['init'] = rng.choice([F] + below)
+        P['init_clause'] = True
+        T = P['name']
     reach = rng.choice(['start', 'dispatch']) if kind != 'none-status' else 'dispatch'
     # fresh signals nobody else reacts to
     spec['signals'] = spec['signals'] + ['SZ', 'SN']
     for s in spec['states']:
       if s['parent'] is None:
-        s['react']['SZ'] = {'kind': 'trans', 'target': F, 'fx': []}
+        s['react']['SZ'] = {'kind': 'trans', 'target': T, 'fx': []}
     malform = {'kind': kind, 'state': F}
+    if via:
+      malform['via'] = via
     if kind == 'none-status':
       malform = {'kind': 'none-status', 'state': F, 'signal': 'SN'}
       model = {'kind': 'none-status', 'state': F, 'signal': 'SN'}
+    elif kind == 'no-else':
+      model = {'kind': 'enter', 'state': F}
     else:
       st['init'] = target
       st['init_clause'] = True
@@ -74,7 +91,7 @@ def generate(seed, stratum, tier):
       model = {'kind': 'init', 'state': F}
     # start state
     if reach == 'start':
-      start = F
+      start = T
       ops = []
     else:
       good = []
@@ -112,7 +129,10 @@ def shrink_candidates(sc):
 
 
 def sigbase(sc):
-  return {'kind': sc['malform']['kind'], 'reach': sc['reach']}
+  out = {'kind': sc['malform']['kind'], 'reach': sc['reach']}
+  if sc['malform'].get('via'):
+    out['via'] = sc['malform']['via']
+  return out
 
 
 def on_budget(run, res):
@@ -133,7 +153,7 @@ def judge(run, res):
   if run.fault_op is None:
     return   # the history never reached the malformation: trivial run
   run.sim.probe('fault_reached')
-  res.nontrivial[:] = [hash((sc['malform']['kind'], sc['reach'], sc['host'], run.spec.depth(sc['malform']['state'])))]
+  res.nontrivial[:] = [hash((sc['malform']['kind'], sc['malform'].get('via'), sc['reach'], sc['host'], run.spec.depth(sc['malform']['state'])))]
   k = run.fault_op
   if k >= len(run.steps):
     res.outcome = 'inconclusive'
@@ -152,7 +172,9 @@ def judge(run, res):
   if exc != 'HsmTopologyException':
     res.violate('wrong-exception', dict(sigbase(sc), exc=exc), 'op#%d %s raised %s instead of HsmTopologyException\n%s' % (k, ob.op, exc, ob.tb))
     return
-  if sc['malform']['kind'] != 'none-status':
+  if sc['malform']['kind'] == 'no-else':
+    pass
+  elif sc['malform']['kind'] != 'none-status':
     F = sc['malform']['state']
     after = False
     for r in ob.recs:
